@@ -751,6 +751,16 @@ impl Runner for QueryRunner {
                     }
                 }
             }
+            // real time passes (the pool reads the wall clock); the model gets the time with the next poll
+            ["qpsleep", ms] => {
+                let Some(ms) = num(ms) else {
+                    out.push("bad-op".into());
+                    return;
+                };
+                std::thread::sleep(Duration::from_millis(ms.min(2000)));
+                stats.bump("q.pool.sleep");
+                out.push("ok".into());
+            }
             ["qppoll", now, cap] => {
                 let (Some(_now), Some(cap)) = (num(now), num(cap)) else {
                     out.push("bad-op".into());
@@ -1084,8 +1094,41 @@ fn gen_single(rng: &mut Rng, tier: &str, stats: &mut Stats) -> Vec<String> {
     ops
 }
 
+/// A pool with a real query timeout (300 ms): lookups that cannot make progress (parallelism 0,
+/// silent peers with a long peer timeout) are polled, left alone for longer than the timeout and
+/// polled again.
+fn gen_pool_realtime(rng: &mut Rng, stats: &mut Stats) -> Vec<String> {
+    const BIG: u64 = 3_600_000;
+    stats.bump("gen.qp.realtime");
+    let mut ops = vec!["qpnew 300".to_string()];
+    let target: Id = rng.bytes(32).try_into().unwrap();
+    let n_ids = rng.range(3, 8) as usize;
+    let ids = universe(rng, &target, n_ids, false);
+    let flags: Vec<bool> = ids.iter().map(|_| rng.chance(3, 5)).collect();
+    let g = GenCtx { ids, flags, contract: true };
+    let nq = rng.range(1, 3);
+    for _ in 0..nq {
+        let par = *rng.pick(&[0u64, 0, 1, 2]);
+        let nr = rng.range(1, 4);
+        ops.push(format!("qpadd {} {} {} {} {} {}", if rng.chance(1, 2) { "p" } else { "f" }, par, nr, BIG, id_hex(&target), g.init(rng, nr as usize)));
+    }
+    let cap = 6 * g.ids.len() + 30;
+    ops.push(format!("qppoll 0 {}", cap));
+    if rng.chance(1, 2) {
+        ops.push(format!("qpfail {} @0", rng.below(nq)));
+        ops.push(format!("qppoll 1 {}", cap));
+    }
+    ops.push("qpsleep 450".into());
+    ops.push(format!("qppoll 450 {}", cap));
+    ops.push(format!("qppoll 451 {}", cap));
+    ops
+}
+
 fn gen_pool(rng: &mut Rng, tier: &str, stats: &mut Stats) -> Vec<String> {
     const BIG: u64 = 3_600_000;
+    if rng.chance(1, 12) {
+        return gen_pool_realtime(rng, stats);
+    }
     let mut ops = Vec::new();
     let contract = rng.chance(3, 5);
     stats.bump(if contract { "gen.qp.contract" } else { "gen.qp.adversarial" });
